@@ -11,7 +11,7 @@ FieldDescriptor.__repr__ = lambda self: "<{}, {!r}, {!r}>".format(*self)
 
 class DescriptorField(renew.Mold):
     _cls_namespace = "prophy.descriptor"
-    _extra_slots = "encode_fcn", "decode_fcn"
+    _extra_slots = "encode_fcn", "decode_fcn", "partial_alignment"
 
     def __init__(self, name, type, discriminator=None):
         self.name = name
@@ -21,6 +21,8 @@ class DescriptorField(renew.Mold):
         # their value don't affect __eq__ & __ne__ result
         self.encode_fcn = None
         self.decode_fcn = None
+        # alignment of the block that follows this field, if the field is dynamic (set by struct_generator)
+        self.partial_alignment = None
 
     def __repr__(self):
         is_union_descriptor = self.discriminator is not None
